@@ -410,10 +410,16 @@ def oracle(ctx, scale):
     fdd = _fdd()
     rng = ctx.rng
     # (1) function level
-    for _ in range(ctx.n(80, 1200) * scale):
+    for it in range(ctx.n(80, 1200) * scale):
         nr = rng.randint(2, 8)
         nc = nr if rng.random() < 0.6 else rng.randint(2, nr)
         nf = rng.randint(12, 70)
+        if it % 20 == 7:
+            # grids as produced by real segment lengths (nxseg 1024 .. 10000): an implementation may treat the lines in blocks
+            nf = rng.choice([513, 1025, 2049, 4097, 5001])
+            nr = rng.randint(2, 3)
+            nc = nr if rng.random() < 0.6 else 2
+            ctx.count("oracle_long_grid")
         df = rng.choice([0.390625, 0.05, rng.uniform(0.01, 1.0)])
         freq = np.arange(nf) * df
         k0 = rng.randint(1, nf - 2)
